@@ -26,7 +26,9 @@
 (*  R4  a non-fatal fault during a step-size search (either run) only      *)
 (*      discards that trial: the call still returns Ok                     *)
 (*  R5  after the sampler accepted a position (set_position returned Ok),  *)
-(*      every draw that returns Ok has finite position and log-density -   *)
+(*      every draw that returns Ok has finite position and log-density     *)
+(*      (and, harness side: finite step size, acceptance statistics and    *)
+(*      energy, at least one integration step) -                           *)
 (*      also when the fault hit the initialisation ("no invalid draws      *)
 (*      afterwards")                                                       *)
 (*  R6  a draw during which nothing misbehaved returns Ok                  *)
